@@ -33,7 +33,14 @@ func (r *RuleEntity) AcceptInteger(val int64) error {
 }
 
 
-func (r *RuleEntity) Execute(dc *context.DataContext) (interface{}, error, bool) {
+func (r *RuleEntity) Execute(dc *context.DataContext) (res interface{}, err error, returned bool) {
+	//a panic while running a rule (type mismatch, nil dereference, ...) is a rule error, it must not take down the caller
+	defer func() {
+		if p := recover(); p != nil {
+			res, err, returned = nil, errors.New(fmt.Sprintf("rule execute panic: %+v", p)), false
+		}
+	}()
+
 	v, e, b := r.RuleContent.Execute(dc, make(map[string]reflect.Value))
 	if v == reflect.ValueOf(nil) {
 		return nil, e, b
